@@ -74,8 +74,8 @@ class SynchronousDeferredRunTest(_DeferredRunTest):
     Deferreds that have already fired.
     """
 
-    def _run_user(self, function, *args):
-        d = defer.maybeDeferred(function, *args)
+    def _run_user(self, function, /, *args, **kwargs):
+        d = defer.maybeDeferred(function, *args, **kwargs)
         d.addErrback(self._got_user_failure)
         result = extract_result(d)
         return result
